@@ -1,13 +1,14 @@
 #!/bin/bash
 # For every "fixed:" entry of known_findings.txt: revert that fix in a scratch worktree of /repo
 # and run the check of the property it is recorded under: the violation must be reported again.
+# (optional argument: only the entries matching this pattern; evidence of these runs goes to a scratch directory)
 cd /verif
 W=$(mktemp -d /tmp/revchk.XXXXXX)
-grep '^fixed:' known_findings.txt | while read -r _ prop commit rest; do
+grep '^fixed:' known_findings.txt | grep -e "${1:-.}" | while read -r _ prop commit rest; do
   prop=${prop#property=}
   git -C /repo worktree add -q --detach "$W/wt" HEAD || exit 2
   if git -C "$W/wt" revert -n "$commit" >/dev/null 2>&1; then
-    out=$(SEDVC_REPO="$W/wt" ./check $prop quick 2>&1); rc=$?
+    out=$(SEDVC_REPO="$W/wt" VERIF_OUT_DIR="$W/out" ./check $prop quick 2>&1); rc=$?
     v=$(echo "$out" | grep -c '^VIOLATION')
     first=$(echo "$out" | grep -A1 '^VIOLATION' | head -2 | tr '\n' ' ' | cut -c1-230)
     echo "$prop $commit rc=$rc violations=$v :: $first"
